@@ -131,7 +131,14 @@ func run(c *core.Ctx) {
 		for _, fault := range []string{"none", "sendFail", "verdictLost"} {
 			for k := 0; k < 3; k++ {
 				jobs = append(jobs, fsreplay.Job{C: fsreplay.Concrete{Own: true, Variant: k, Scn: fsreplay.Scn{Role: "client", Abs: true,
-					Path: []string{"B", leaf}, Fam: fam, Fault: fault, Valid: true, Exp: "create"}}})
+					Path: []string{"B", leaf}, Fam: fam, Fault: fault, Remover: "server", Verdict: "any", Valid: true, Exp: "create"}}})
+			}
+		}
+		// ... and with a server that leaves the removal to the client (both verdicts)
+		for _, verdict := range []string{"accept", "refuse"} {
+			for k := 0; k < 2; k++ {
+				jobs = append(jobs, fsreplay.Job{C: fsreplay.Concrete{Own: true, Variant: k, Scn: fsreplay.Scn{Role: "client", Abs: true,
+					Path: []string{"B", leaf}, Fam: fam, Fault: "none", Remover: "nobody", Verdict: verdict, Valid: true, Exp: "create"}}})
 			}
 		}
 	}
